@@ -183,6 +183,12 @@ class SpecMixin:
             return v
         if isinstance(o, VSeq):
             return seq_get(o, ops.to_int(i))
+        if isinstance(o, VMap) and isinstance(i, VStr):
+            return VRow(o, i.t)
+        if isinstance(o, VRow) and isinstance(i, VStr) and i.s is not None:
+            tmp = State()
+            tmp.heap = se.st.heap
+            return map_get(tmp, o, i.s)
         raise Unsupported("spec subscript of %r" % (o,))
 
     def sp_BoolOp(self, e, se):
@@ -238,6 +244,13 @@ class SpecMixin:
         if not isinstance(e.func, ast.Name):
             raise Unsupported("spec call of a non-name")
         f = e.func.id
+        bound = se.env.get(f, se.st.store.get(f))
+        if isinstance(bound, VFunc) and bound.kind == "uf":
+            args = [self.sp(a, se) for a in e.args]
+            ts = []
+            for a, ty in zip(args, bound.argtys):
+                ts += to_terms(coerce(a.val if isinstance(a, VOpt) and ty.k != "opt" else a, ty), ty)
+            return from_terms([fn(*ts) for fn in bound.fns], bound.retty)
         if f == "old":
             if se.old is None:
                 raise Unsupported("old() without a pre-state")
@@ -346,6 +359,45 @@ class SpecMixin:
             return list_as_seq(tmp, x)
         if f == "ref":
             return VInt(args[0].t)
+        if f == "has_row":
+            tmp = State()
+            tmp.heap = se.st.heap
+            return VBool(map_has_row(tmp, args[0], args[1].t))
+        if f == "has_field":
+            tmp = State()
+            tmp.heap = se.st.heap
+            return VBool(map_has_field(tmp, args[0], args[1].s))
+        if f == "map_unchanged_except":
+            # every row/field of the record map other than (row, field) is as in the pre-state (presence and value)
+            m, rowk, fld = args
+            now, old = se.st.heap, se.old.heap
+            cl = []
+            kk = z3.Const(fresh_name("mk"), StrSort)
+            for key in set(now) | set(old):
+                if not key.startswith("map:%s." % m.name):
+                    continue
+                a = now.get(key)
+                b = old.get(key)
+                if a is None or b is None:
+                    srt = (a if a is not None else b).sort()
+                    a = a if a is not None else z3.Const("H0!" + key, srt)
+                    b = b if b is not None else z3.Const("H0!" + key, srt)
+                if a.eq(b):
+                    continue
+                suffix = key[len("map:%s." % m.name):]
+                if suffix in (fld.s, "@has." + fld.s):
+                    cl.append(z3.ForAll([kk], z3.Implies(kk != rowk.t, a[kk] == b[kk])))
+                else:
+                    cl.append(z3.ForAll([kk], a[kk] == b[kk]))
+            return VBool(z3.And(cl) if cl else z3.BoolVal(True))
+        if f == "row_filled":
+            # every declared field of the row is present
+            tmp = State()
+            tmp.heap = se.st.heap
+            row = args[0]
+            only = [a.s for a in args[1:]]
+            flds = only or list(VMap.FIELDS.get(row.m.name, {}))
+            return VBool(z3.And([map_has_field(tmp, row, fl) for fl in flds]))
         if f in PURE_SPECS:
             return PURE_SPECS[f](self, se, *args)
         raise StaleContract("unknown spec function %r" % f)
